@@ -60,6 +60,7 @@ type State struct {
 	sideMark int // index into side up to which side conditions have been emitted as obligations
 	typed    map[int]bool
 	cutDone  map[int]bool
+	persist  []*Term // facts that survive a cut: entry assumptions and earlier cut assertions
 	steps    int
 	trace    []string
 	// termination
@@ -80,6 +81,7 @@ func (st *State) clone() *State {
 		sideMark: st.sideMark,
 		typed:    make(map[int]bool, len(st.typed)),
 		cutDone:  make(map[int]bool, len(st.cutDone)),
+		persist:  st.persist[:len(st.persist):len(st.persist)],
 		steps:    st.steps,
 		trace:    st.trace[:len(st.trace):len(st.trace)],
 	}
@@ -170,6 +172,7 @@ type Engine struct {
 	loopHdrCache  map[*ssa.Function]map[int]int
 	callOrdCache  map[*ssa.Function]map[ssa.Instruction]int
 	usedCuts      map[string]bool
+	anchorCache   map[*ssa.Function]*cutAnchorSet
 	preds         map[string]bool
 	flowOK        int
 }
@@ -186,6 +189,15 @@ func (en *Engine) oblName(kind string) string {
 }
 
 func (en *Engine) addObl(st *State, kind string, goal *Term, detail string, pos string) *Obligation {
+	// conjunctions of a postcondition / cut / invariant become one obligation per conjunct
+	if goal.op == OAnd && (kind == "post" || strings.HasPrefix(kind, "cut@") || strings.HasPrefix(kind, "inv-") || strings.HasPrefix(kind, "pre@")) && len(goal.args) <= 300 {
+		var last *Obligation
+		for i, g := range goal.args {
+			last = en.addObl(st, kind, g, fmt.Sprintf("%s [conjunct %d/%d]", detail, i+1, len(goal.args)), pos)
+			last.Alg = true
+		}
+		return last
+	}
 	o := &Obligation{Name: en.oblName(kind), Kind: kind, Func: en.curFunc, Facts: st.facts[:len(st.facts):len(st.facts)], Goal: goal, Detail: detail, Pos: pos}
 	en.obls = append(en.obls, o)
 	return o
